@@ -106,6 +106,9 @@ def main(run):
     tasks += go("StructAlphabet", 2, 2, [512], "AsmCore struct, 2 files x 2 stmts with LinkIsConcatenation (simulation)",
                 extra=("concat",), timeout=6000, simulate=40000 if thorough else 800, depth=6, seed=run.seed + 2)
     tasks += go("StructDirAlphabet", 2, 2, [512], "AsmCore struct, same-named inserted files in two directories and linked includable files (exhaustive)")
+    tasks += go("StructLateAlphabet", 4 if thorough else 3, 1, [512, 1000], "AsmCore struct, late-compiled blocks that refer to labels behind them (exhaustive)")
+    if not thorough:
+        tasks += go("StructLateAlphabet", 4, 1, [512], "AsmCore struct, late-compiled blocks, simulation (<= 4 stmts)", simulate=500, depth=5, seed=run.seed + 31)
     if thorough:        # all 2-file programs of 3 statements would be 2.1 million: a simulation instead
         tasks += go("StructDirAlphabet", 3, 3, [512], "AsmCore struct, directories and linked includable files, simulation (<= 3 stmts x 3 files)",
                     simulate=30000, depth=10, seed=run.seed + 29)
@@ -116,5 +119,5 @@ def main(run):
     if ex:
         run.sample({"abstract": ex[len(ex) // 3][0]["files"], "predicted": ex[len(ex) // 3][0]["runs"][0]["image"]})
     run.exhaustive = False
-    run.assumptions += ["repeat counts are literals 0..3, 17 and 40; symbolic counts are exercised by C03 (chain value as .repeat count)",
+    run.assumptions += ["repeat counts are literals 0..3, 17 and 40; symbolic counts defined further down in StructLateAlphabet and by C03 (chain value as .repeat count)",
                         "'.end' inside a .repeat body and '.link' inside included files are not generated (undefined by the property)"]
